@@ -119,7 +119,10 @@ def cost_job(interp, c, case):
     keysets = (("X", "Z"), ("Y",), ("Z",), ("X", "Y", "Z"))
     ics = [{s_: c.real("ic_%d_%s" % (n, s_), lo=0) for s_ in keysets[n % 4]} for n in range(N)]
     if cond_kind == "list":
-        pcs = [{"cnd": c.real("pc_%d" % n)} for n in range(N)]
+        # per-trajectory dictionaries need not have the same keys: later trajectories set more parameters here
+        # (neither nested nor ordered: trajectory 0 sets cnd, 1 sets nothing, 2 sets k2, 3 sets both)
+        keysets = (("cnd",), (), ("k2",), ("cnd", "k2"))
+        pcs = [{k_: c.real("p%s_%d" % (k_, n)) for k_ in keysets[n % 4]} for n in range(N)]
     elif cond_kind == "dict":
         pcs = {"cnd": c.real("pc_all")}
     else:
@@ -162,8 +165,8 @@ def cost_job(interp, c, case):
         for s in species:
             conds.append(x0[idx[s]] == (ics[n][s] if s in ics[n] else xd[s]))
         conds.append(pv[pidx["k1"]] == theta)
-        conds.append(pv[pidx["k2"]] == kd["k2"])
-        want_c = pcs[n]["cnd"] if cond_kind == "list" else pcs["cnd"] if cond_kind == "dict" else kd["cnd"]
+        conds.append(pv[pidx["k2"]] == (pcs[n]["k2"] if cond_kind == "list" and "k2" in pcs[n] else kd["k2"]))
+        want_c = pcs[n].get("cnd", kd["cnd"]) if cond_kind == "list" else pcs["cnd"] if cond_kind == "dict" else kd["cnd"]
         conds.append(pv[pidx["cnd"]] == want_c)
         conds += [tp[t] == times[n][t] for t in range(T)]
     rep(s_and(*conds), "trajectory n is simulated from its own initial condition, with defaults + theta + its own parameter "
@@ -192,8 +195,8 @@ def cost_job(interp, c, case):
         for s in species:
             conds.append(x0[idx[s]] == (ics[n][s] if s in ics[n] else xd[s]))
         conds.append(pv[pidx["k1"]] == theta2)
-        conds.append(pv[pidx["k2"]] == kd["k2"])
-        want_c = pcs[n]["cnd"] if cond_kind == "list" else pcs["cnd"] if cond_kind == "dict" else kd["cnd"]
+        conds.append(pv[pidx["k2"]] == (pcs[n]["k2"] if cond_kind == "list" and "k2" in pcs[n] else kd["k2"]))
+        want_c = pcs[n].get("cnd", kd["cnd"]) if cond_kind == "list" else pcs["cnd"] if cond_kind == "dict" else kd["cnd"]
         conds.append(pv[pidx["cnd"]] == want_c)
     rep(s_and(*conds) and len(calls) == N, "a later evaluation is simulated exactly as a first evaluation would be (the cost is a function "
                                            "of theta alone)", "history independence")
